@@ -72,17 +72,23 @@ theorem reachableX_uniq_check (cfg : Cfg) (ops : List Val)
 /-! ### a duplicate key inside a bulk -/
 
 /-- `InsertOne` of a document the single insert rejects with DuplicateKeyError: the executor
-    reports a write error; with no TTL index and an `_id` in the document nothing changes -/
+    reports a write error; with no TTL index and an `_id` in the document nothing changes (the
+    created flag, which the rejected insert has set once more, was set already) -/
 theorem bulkOne_insert_dup (cfg : Cfg) (now : Int) (c : Coll) (idx : Nat) (fs : Fields)
-    (hnt : c.ttlIndexes = []) (hid : dhas "_id" fs = true)
+    (hnt : c.ttlIndexes = []) (hid : dhas "_id" fs = true) (hf : c.forceCreated = true)
     (h : insertDoc now c (.doc fs) = .error .dupKey) :
     bulkOne cfg now c idx (.arr [.str "InsertOne", .doc fs]) = (c, .writeErr .dupKey) := by
   have he : expire now c = .ok c := by unfold expire; rw [hnt]; rfl
-  simp only [bulkOne, stepColl, h, hid, if_true, he]
+  have hrej : insertRejected now c (.doc fs) = c := by
+    unfold insertRejected
+    simp only [hid, if_true, he]
+    exact markStored_of_flag c _ hf
+  simp only [bulkOne, stepColl, h, hrej]
   rfl
 
 theorem bulk_dup_write_rejected (cfg : Cfg) (now : Int) (c : Coll) (idx : Nat) (d : Val)
     (ix : Index) (p : Val × Val)
+    (hr : c.Recorded)
     (hs : ScalarInv c) (hix : ix ∈ c.indexes) (hu : ix.unique = true) (hnt : c.ttlIndexes = [])
     (hp : p ∈ c.docs) (hcp : covers ix p.2 = true) (hcd : covers ix (patchDT d) = true)
     (hsd : scalarKeys ix (patchDT d) = true)
@@ -94,7 +100,8 @@ theorem bulk_dup_write_rejected (cfg : Cfg) (now : Int) (c : Coll) (idx : Nat) (
     bulkOne cfg now c idx (.arr [.str "InsertOne", d]) = (c, .writeErr .dupKey) := by
   have h := C06.dup_write_rejected_dupkey_alt now c d ix p hs hix hu hnt hp hcp hcd hsd heq hid hk hone hpf
   obtain ⟨fs, rfl, hid'⟩ := hid
-  exact bulkOne_insert_dup cfg now c idx fs hnt hid' h
+  have hf : c.forceCreated = true := hr (Or.inr (List.ne_nil_of_mem hix))
+  exact bulkOne_insert_dup cfg now c idx fs hnt hid' hf h
 
 theorem bulk_dup_at_index (cfg : Cfg) (now : Int) (ordered : Bool) (c : Coll)
     (idx : Nat) (d : Val) (rest : List Val) (t : BulkTotals)
